@@ -12,19 +12,19 @@ inductive Step (c : Cfg) : State → Act → State → Prop where
         ∨ s.pc = .held ∨ s.pc = .done) →
       Step c s (.tick d) { s with clock := s.clock + d }
   | takeIdleEnd {s z rest} : s.q = z :: rest → s.pc = .idle → c.isEnd z = true →
-      Step c s .take { s with q := rest, taken := s.taken ++ [z], pc := .closing, fin := true }
+      Step c s .take { s with q := rest, taken := s.taken ++ [z], takenAt := s.takenAt ++ [(z, s.clock)], pc := .closing, fin := true }
   | takeIdleItem {s z rest} : s.q = z :: rest → s.pc = .idle → c.isEnd z = false →
-      Step c s .take { s with q := rest, taken := s.taken ++ [z], cur := [z], t0 := s.clock,
+      Step c s .take { s with q := rest, taken := s.taken ++ [z], takenAt := s.takenAt ++ [(z, s.clock)], cur := [z], t0 := s.clock,
                               pc := if 1 < c.bs then .coll else .flush }
   | takeCollEnd {s z rest} : s.q = z :: rest → s.pc = .coll → c.isEnd z = true →
-      Step c s .take { s with q := rest, taken := s.taken ++ [z], pc := .flush, fin := true }
+      Step c s .take { s with q := rest, taken := s.taken ++ [z], takenAt := s.takenAt ++ [(z, s.clock)], pc := .flush, fin := true }
   | takeCollItem {s z rest} : s.q = z :: rest → s.pc = .coll → c.isEnd z = false →
-      Step c s .take { s with q := rest, taken := s.taken ++ [z], cur := s.cur ++ [z],
+      Step c s .take { s with q := rest, taken := s.taken ++ [z], takenAt := s.takenAt ++ [(z, s.clock)], cur := s.cur ++ [z],
                               pc := if s.cur.length + 1 < c.bs then .coll else .flush }
   | timeout {s} : s.pc = .coll → s.q = [] → s.t0 + c.wait ≤ s.clock →
       Step c s .timeout { s with pc := .flush }
   | emit {s} : s.pc = .flush →
-      Step c s .emit { s with pc := .held, out := s.out ++ [s.cur], cur := [] }
+      Step c s .emit { s with pc := .held, out := s.out ++ [s.cur], outAt := s.outAt ++ [s.clock], cur := [] }
   | resume {s} : s.pc = .held →
       Step c s .resume { s with pc := if s.fin = true then .closing else .idle }
   | stop {s} : s.pc = .closing → Step c s .stop { s with pc := .done }
